@@ -334,7 +334,20 @@ def check(ctx):
         want = sorted([bname, "OS[mesh_size]"] + ([scale] if scale else []))
         alt = sorted([bname, "self.mesh_size"] + ([scale] if scale else []))
         ctx.check(factors in (want, alt), poll, s, f"displacement = {' * '.join(factors)}", f"the poll displacement is {' * '.join(factors)}; expected direction matrix * mesh size * the very scale divided out by the generator ({scale})", construct=f"displacement factors {factors}")
-        adds = [(t, v, s2) for t, v, s2, k in iter_stores(poll.node) if isinstance(v, ast.BinOp) and isinstance(v.op, ast.Add) and {canon(v.left), canon(v.right)} == {"self.u", vname}]
+        def _inc(e, at):
+            """the operand as written, or - a local that holds the incumbent read before the loop - self.u, provided nothing
+            re-assigns self.u between that read and this use"""
+            c_ = canon(e)
+            if isinstance(e, ast.Name) and c_ != vname:
+                dd_ = reaching_assignments(prog, poll, e.id, at)
+                if len(dd_) == 1 and canon(dd_[0]) == "self.u":
+                    from .common import attr_stable_between, enclosing_stmt
+
+                    if attr_stable_between(prog, poll, "u", enclosing_stmt(prog, dd_[0]), at):
+                        return "self.u"
+            return c_
+
+        adds = [(t, v, s2) for t, v, s2, k in iter_stores(poll.node) if isinstance(v, ast.BinOp) and isinstance(v.op, ast.Add) and {_inc(v.left, s2), _inc(v.right, s2)} == {"self.u", vname}]
         ctx.check(bool(adds), poll, s, "candidates = incumbent + displacement", "poll candidates are not the incumbent plus the displacement", construct="poll candidates not incumbent + displacement")
 
     # ------------------------------------------------------------------ R5
